@@ -16,6 +16,12 @@ class VLoop(asyncio.SelectorEventLoop):
     def time(self):
         return self._vt
 
+    def block(self, dt):
+        """Virtual time passes without the loop doing anything: the loop is not running (between two
+        run_until_complete calls) or one of its callbacks keeps it busy with synchronous work.  Timers that become
+        due are run, as on a real loop, after whatever is already ready."""
+        self._vt += dt
+
     def run_in_executor(self, executor, func, *args):
         fut = super().run_in_executor(executor, func, *args)
         self._inflight.add(fut)
